@@ -42,6 +42,10 @@ CLAIMS = {
             "technique": "model-based stateful testing of the callback ledger + concurrent removers under generated schedules (ledger inside the linearizability check)",
             "text": "Callback ledger (key, value, firing call) checked against the model's must/may sets sequentially (with Count probes around Delete/GetAndDelete/DeleteExpired, callbacks swapped and re-entering the cache) and inside the linearizability check concurrently; each stored value reported at most once.",
             "note": E2_NOTE + " " + E1_NOTE},
+    "C07": {"engine": "E1+E2", "design_ref": "DESIGN.md section 4 C07",
+            "technique": "generated contents x visitor behaviours (stop, mutate) against a traversal oracle; traversal racing writers under generated schedules (per-key pseudo-reads in the linearizability check)",
+            "text": "Sequentially: exact visit sets on generated contents of all four containers incl. long chains, resized/cleared tables, expired entries, early stop and visitor mutations. Concurrently: a Range/Items thread against writers, Clear and resizes; each key at most once, value current at some moment of the traversal, stable keys always visited.",
+            "note": E2_NOTE},
     "C08": {"engine": "E1+E2", "design_ref": "DESIGN.md section 4 C08",
             "technique": "quiescent-point invariant over generated concurrent histories and generated sequences",
             "text": "After every generated concurrent phase (inserts/deletes racing each other and table copies) Size == Range visits == successful Loads == model; caches: Count interval, exact after DeleteExpired, 0 after Clear; sequentially after every few steps.",
@@ -50,6 +54,10 @@ CLAIMS = {
             "technique": "model-based stateful property testing with boundary-value generators (constructors x TTLs x defaults x clock)",
             "text": "Constructor variants x boundary defaults x boundary TTL arguments x SetDefaultExpiration x arbitrary clock advances; stored instant, GetWithExpiration, GetWithTTL, DefaultExpiration and re-arming behaviour compared exactly with the model under a virtual clock.",
             "note": E1_NOTE},
+    "C16": {"engine": "E2", "design_ref": "DESIGN.md section 4 C16",
+            "technique": "stall sweep under a deterministic scheduler: writer parked at every scheduling point / inside its user function while generated lookups run alone",
+            "text": "For generated (writer call, lookups) pairs on all four containers the writer is suspended at each of its atomic/lock operations in turn (incl. mid-resize, mid-Clear, inside Compute's user function) and the lookups must complete without blocking, spinning or exceeding a bound on their own steps, returning linearizable results.",
+            "note": E2_NOTE + " The own-step bound is a concrete number (4x quiescent cost + 64); lookups of expired keys are excluded as in the property."},
     "C13": {"engine": "E2", "design_ref": "DESIGN.md section 4 C13",
             "technique": "deadlock / no-progress detection by a deterministic scheduler over generated programs and schedules",
             "text": "Bounded liveness: under every explored schedule no call is unfinished when nothing can run (deadlock, lost wake-up, leaked lock) and no execution exceeds 60x its non-preemptive step count; callbacks and visitors re-enter the container; quiescent read-back takes every bucket lock.",
